@@ -110,7 +110,15 @@ Definition mon_step (ign : nat -> bool) (P : gparams) (m : mon) (st : gstepr) : 
         let excl := fun p => (match m_from msg with Some q => Nat.eqb p q | None => false end)
                              || (match m_author msg with Some q => Nat.eqb p q | None => false end) in
         let accepted := match gs_op st with GRecvMsgs p _ _ => accept_from P sc g p | _ => true end in
-        if negb accepted then (if hit 91%nat (negb (match out with [] => true | _ => false end)) then Some 91%nat else None)
+        (* IDONTWANT goes only to members of the message's topic mesh that speak v1.2 or later, never to the sender, and only
+           for a message at or above the size threshold *)
+        if hit 170%nat (existsb (fun x => match x with
+                                          | OIDontWant p _ _ =>
+                                              negb (memb p (aget_l t (mesh s))) || negb (memb p (idw_peers g))
+                                              || (match m_from msg with Some q => Nat.eqb p q | None => false end)
+                                              || Nat.ltb (m_size msg) (gIDWThr P)
+                                          | _ => false end) out) then Some 170%nat
+        else if negb accepted then (if hit 91%nat (negb (match out with [] => true | _ => false end)) then Some 91%nat else None)
         else if hit 61%nat (existsb excl R) then Some 61%nat
         else if hit 62%nat (existsb (fun p => negb (memb p tm) && negb (memb p (aget_l t (mesh s))) && negb (memb p (aget_l t (fanout s)))) R) then Some 62%nat
         else if hit 68%nat (existsb (fun p => negb (memb p tm) && negb (memb p (aget_l t (mesh s)))) R) then Some 68%nat   (* fanout member that unsubscribed: known finding class *)
@@ -196,10 +204,11 @@ Definition mon_step (ign : nat -> bool) (P : gparams) (m : mon) (st : gstepr) : 
         if hit 91%nat (negb (accept_from P sc g p) && negb (match out with [] => true | _ => false end)) then Some 91%nat else None
     | _ => None
     end in
-  (* somebody with a negative score was added to a mesh in this step *)
+  (* somebody with a negative score was added to a mesh in this step; a fanout set never holds more than D peers *)
   let v2 := match v with
             | Some c => Some c
             | None =>
+                if hit 601%nat (existsb (fun e => Nat.ltb (pD (gCore P)) (length (snd e))) (gn_fanout (gs_snap st))) then Some 601%nat else
                 if hit 96%nat (existsb (fun e => existsb (fun p => negb (memb p (aget_l (fst e) (mesh s))) && (score_of sc p <? 0)) (snd e))
                            (gn_mesh (gs_snap st))) then Some 96%nat else None
             end in
@@ -260,7 +269,9 @@ Definition mon_step (ign : nat -> bool) (P : gparams) (m : mon) (st : gstepr) : 
 
 Section ForProperty.
 Variable which : nat.   (* 6 -> C06, 9 -> C09, 17 -> C17, 0 -> all *)
-Definition kept (c : nat) : bool := Nat.eqb which 0 || Nat.eqb (c / 10)%nat which.
+(* a clause belongs to the property whose number is its code without the last digit (two- and three-digit codes) or without
+   the last two digits (601 ..: more clauses than ten for one property) *)
+Definition kept (c : nat) : bool := Nat.eqb which 0 || Nat.eqb (c / 10)%nat which || Nat.eqb (c / 100)%nat which.
 (* 67 / 68 are the classes of two recorded findings (C06).  A clause of another property, or a finding class, never hides
    a clause of the property under check: the monitor is evaluated with the clauses that are not wanted switched off -
    first without the finding classes, then with them *)
